@@ -54,6 +54,10 @@ type pubObj struct {
 	inner *pubObj
 	pw    []*Term
 	gen   *pubObj // generator the mask was formed with
+	// a pure multiple s*G' of a generator (what a party that knows the
+	// passphrase can compute): scaledGen = G', scaledPw = s
+	scaledGen *pubObj
+	scaledPw  []*Term
 	ok    *Term // validity of a parsed point (nil = valid)
 	ser   bool  // SerializeCompressed was called (bytes may be on the wire)
 }
